@@ -13,13 +13,13 @@ cleanup() { git -C /repo worktree remove --force "$WT" 2>/dev/null; rm -rf "$WT"
 trap cleanup EXIT
 cd "$WT" || exit 2
 cp "$SRC/demo_test.go" zz_seeded_demo_test.go
-if ! go test -count=1 -run 'TestSeeded' . >/tmp/vs-$$.log 2>&1; then res "REJECT demo fails on clean tree"; tail -5 /tmp/vs-$$.log; exit 3; fi
+if ! go test -tags verif -count=1 -run 'TestSeeded' . >/tmp/vs-$$.log 2>&1; then res "REJECT demo fails on clean tree"; tail -5 /tmp/vs-$$.log; exit 3; fi
 rm zz_seeded_demo_test.go
 if ! git apply "$SRC/patch.diff"; then res "REJECT patch does not apply to current HEAD"; exit 3; fi
 if ! go build ./... ; then res "REJECT does not build"; exit 3; fi
 if ! go test -count=1 ./... >/tmp/vs-$$.log 2>&1; then res "REJECT suite fails with change"; tail -5 /tmp/vs-$$.log; exit 3; fi
 cp "$SRC/demo_test.go" zz_seeded_demo_test.go
-if go test -count=1 -run 'TestSeeded' . >/tmp/vs-$$.log 2>&1; then res "REJECT demo passes with change"; exit 3; fi
+if go test -tags verif -count=1 -run 'TestSeeded' . >/tmp/vs-$$.log 2>&1; then res "REJECT demo passes with change"; exit 3; fi
 rm -f /tmp/vs-$$.log
 cd /verif
 if [ -n "$(git -C /repo status --porcelain)" ]; then res "ABORT /repo not clean"; exit 2; fi
